@@ -16,12 +16,12 @@ EXTENDS Serialization
 Trace == ndJsonDeserialize("serial_trace.ndjson")
 
 VARIABLE l          \* next event to consume
-tvars == <<obj, fmt, faults, doc, lay, l>>
+tvars == <<obj, fmt, faults, doc, lay, rcv, l>>
 
-Load(e) == /\ obj' = e.obj /\ fmt' = e.fmt /\ faults' = <<>> /\ doc' = e.doc /\ lay' = "canonical"
+Load(e) == /\ obj' = e.obj /\ fmt' = e.fmt /\ faults' = <<>> /\ doc' = e.doc /\ lay' = "canonical" /\ rcv' = FreshRcv
 
 TraceInit == /\ l = 2
-             /\ obj = Trace[1].obj /\ fmt = Trace[1].fmt /\ faults = <<>> /\ doc = Trace[1].doc /\ lay = "canonical"
+             /\ obj = Trace[1].obj /\ fmt = Trace[1].fmt /\ faults = <<>> /\ doc = Trace[1].doc /\ lay = "canonical" /\ rcv = FreshRcv
 TraceNext == /\ l <= Len(Trace)
              /\ Load(Trace[l])
              /\ l' = l + 1
